@@ -39,7 +39,7 @@ class _BaseAttribute(ABC):
         bool, np.bool_,
         int, np.uint8, np.int32, np.int64, 
         float, np.float32, np.float64, 
-        complex, 
+        complex, np.complex128,
         str
     }
 
@@ -47,7 +47,7 @@ class _BaseAttribute(ABC):
         Bool = bool, np.bool_
         Int = int, np.int32, np.uint8, np.int64
         Float = float, np.float32, np.float64
-        Complex = complex
+        Complex = complex, np.complex128
         String = str
 
         @classmethod
